@@ -131,10 +131,12 @@ class Run:
         self.evals = 0
         self.distinct = set()
         self.violations = []
+        self.per_clause = {}
         self.samples = []
 
     def bad(self, clause, tname, func, inp, observed):
-        if len(self.violations) < 40:
+        self.per_clause[(clause, func)] = self.per_clause.get((clause, func), 0) + 1
+        if self.per_clause[(clause, func)] <= 4:       # a few witnesses per (clause, function); no global cap that could hide others
             v = {'clause': clause, 'contract': func, 'file': 'frappy/datatypes.py', 'func': func,
                  'input': {'datatype': tname, **{k: repr(v) for k, v in inp.items()}}, 'observed': observed}
             fk = _finding_key(clause, tname, inp, observed)
